@@ -728,7 +728,23 @@ func genRace(seed uint64, run int) *Case {
 		cand[i], cand[j] = cand[j], cand[i]
 	}
 	pf.Survivors = append(pf.Survivors, cand[:nStable]...)
-	grow := !keyed && r.Chance(0.6) && !av.blockGrowth
+	farLayout := false
+	if fr := NewRng(seed, uint64(run), 99); !keyed && fr.Chance(0.06) {
+		// rows far out: blocks 128 and 129 share their latch shards with blocks 0 and 1, so two
+		// multi-block commits can meet on the same two latches coming from different blocks
+		// (own PRNG stream; few columns: every column gets 130 chunks)
+		farLayout = true
+		pf.Blocks = 2
+		pf.Far = []int{128, 129}
+		pf.Survivors = []uint32{3, 16384 + 9, 128<<14 + 5, 129<<14 + 77}
+		nStable = len(pf.Survivors)
+		if len(g.cols) > 3 {
+			g.cols = g.cols[:3]
+			cs.Schema = append([]ColSpec{}, g.cols...)
+			vc = g.valueCols()
+		}
+	}
+	grow := !keyed && !farLayout && r.Chance(0.6) && !av.blockGrowth
 	if av.blockGrowth {
 		// known finding "columns and bitmaps grow beside readers": unless this run explores it,
 		// everything is pre-sized and no insert opens a new block
@@ -868,6 +884,16 @@ func genRace(seed uint64, run int) *Case {
 			tp.Txns = append(tp.Txns, t)
 		}
 		cs.Threads = append(cs.Threads, tp)
+	}
+	if farLayout && len(vc) > 0 {
+		// two writers whose first transactions touch blocks {1, 128} and {0, 129}: the same two
+		// latch shards, reached in opposite order when going by block number
+		w1 := Write{Col: vc[0].Name, Val: g.genVal(vc[0])}
+		w2 := Write{Col: vc[0].Name, Val: g.genVal(vc[0])}
+		ta := TxnProg{Ops: []Op{{Kind: "at", Target: Target{Mode: "stable", K: 1}, Writes: []Write{w1}}, {Kind: "at", Target: Target{Mode: "stable", K: 2}, Writes: []Write{w1}}}}
+		tb := TxnProg{Ops: []Op{{Kind: "at", Target: Target{Mode: "stable", K: 0}, Writes: []Write{w2}}, {Kind: "at", Target: Target{Mode: "stable", K: 3}, Writes: []Write{w2}}}}
+		cs.Threads[0].Txns = append([]TxnProg{ta}, cs.Threads[0].Txns...)
+		cs.Threads = append(cs.Threads, ThreadProg{Role: "writer", Txns: []TxnProg{tb}})
 	}
 	if sortCol != "" {
 		ar := NewRng(seed, uint64(run), 93)
